@@ -5,7 +5,7 @@ R="${1:-}"
 cd /verif/seeded || exit 2
 for d in */; do
   d=${d%/}
-  case "$d" in *-$R*) ;; *) continue;; esac
+  case "$d" in fix-reverts) continue;; *-$R*) ;; *) continue;; esac
   P=${d%%-*}
   out=$(/verif/seedtest.sh "$P" "/verif/seeded/$d/patch.diff" 2>&1)
   rc=$(echo "$out" | sed -n 's/^exit=//p')
